@@ -15,7 +15,7 @@ sys.path.insert(0, os.path.dirname(os.path.dirname(os.path.abspath(__file__))))
 import ast
 import z3
 from pyvc import xreal as xr
-from pyvc.numexec import Num, Bool, Unsupported
+from pyvc.numexec import Num, Bool, Unsupported, ANALYSIS
 from pyvc.heap import HPath, LoopSpec, Contract, Schema
 from pyvc.intlists import IntListExec, ArrV, IntArr, mkint, toint
 from pyvc.hlib import emit
@@ -551,7 +551,7 @@ def build(run):
     for fq, f in plan:
         try:
             f(run)
-        except Unsupported as ex_:
+        except ANALYSIS as ex_:
             run.add(undecided(f"{fq}/subset", f"outside the verified subset: {ex_}", fn=fq))
         except NotFound as ex_:
             run.add(static(f"{fq}/exists", False, f"function under contract not found: {ex_}", fn=fq))
